@@ -94,7 +94,7 @@ func (tcSuite) Run(h map[string]string, ops []string) []string {
 	var callbacks []func()
 	tc.TimeAfterFunc = func(d time.Duration, f func()) *time.Timer {
 		callbacks = append(callbacks, f)
-		return nil
+		return sleepingTimer()
 	}
 	out := make([]string, len(ops))
 	for i, op := range ops {
